@@ -118,6 +118,60 @@ theorem params_spec (s : Str) (k : Str) :
 theorem keys_spec (uris : List Str) (u : Str) : u ∈ keys (mk uris) ↔ u ∈ uris :=
   mem_keys_mk uris u
 
+/-! ## Histories: a capability object that is added to and removed from behaves like the ordered SET of URIs the
+documentation describes — whatever was looked up, added or removed before (no memory of past contents). -/
+
+/-- After ANY sequence of `add` / `remove`, the object is the one holding exactly the URIs of the abstract ordered set —
+    so every lookup (full URI, shorthand, parameters, `in`, iteration, length) answers as a freshly built object would. -/
+theorem history_is_fresh_object (uris : List Str) (ops : List Op) :
+    run (mk uris) ops = ofKeys (ops.foldl absStep (keys (mk uris))) := by
+  have h := canon_eq_ofKeys (run (mk uris) ops) (canon_run _ ops (canon_mk uris))
+  rw [keys_run] at h
+  exact h
+
+/-- Corollary for lookups. -/
+theorem lookup_after_history (uris : List Str) (ops : List Op) (key : Str) :
+    getItem (run (mk uris) ops) key = getItem (ofKeys (ops.foldl absStep (keys (mk uris)))) key := by
+  rw [history_is_fresh_object]
+
+/-- The abstract set: `add` makes a URI present (at the end if new), `remove` makes it absent, neither touches the others. -/
+theorem abs_add_mem (l : List Str) (u : Str) : u ∈ absStep l (.add u) := by
+  simp only [absStep]
+  by_cases h : u ∈ l <;> simp [h]
+theorem abs_remove_not_mem (l : List Str) (u : Str) : u ∉ absStep l (.remove u) := by
+  simp [absStep]
+theorem abs_other_unchanged (l : List Str) (op : Op) (v : Str) (h : op ≠ .add v ∧ op ≠ .remove v) : v ∈ absStep l op ↔ v ∈ l := by
+  cases op with
+  | add u =>
+    have hne : u ≠ v := fun e => h.1 (by rw [e])
+    simp only [absStep]
+    by_cases hu : u ∈ l
+    · simp [hu]
+    · simp only [hu, if_false, List.mem_append, List.mem_singleton]
+      constructor
+      · rintro (hm | hm)
+        · exact hm
+        · exact absurd hm.symm hne
+      · intro hm; exact Or.inl hm
+  | remove u =>
+    have hne : u ≠ v := fun e => h.2 (by rw [e])
+    simp only [absStep, List.mem_filter, bne_iff_ne, ne_eq]
+    exact ⟨fun hm => hm.1, fun hm => ⟨hm, fun e => hne e.symm⟩⟩
+
+/-- A removed capability is gone for the shorthand forms too (unless another advertised URI still has that shorthand). -/
+theorem removed_is_gone (uris : List Str) (ops : List Op) (u : Str) :
+    dictGet (run (mk uris) (ops ++ [.remove u])) u = none := by
+  rw [dictGet_none_iff]
+  have := keys_run (mk uris) (ops ++ [.remove u])
+  simp only [keys] at this
+  rw [this, List.foldl_append]
+  exact abs_remove_not_mem _ u
+
+example : contains (run (mk ["urn:ietf:params:netconf:capability:url:1.0?scheme=ftp".toList]) [.remove "urn:ietf:params:netconf:capability:url:1.0?scheme=ftp".toList]) ":url".toList = false := by
+  decide +kernel
+example : keys (run (mk ["a".toList, "b".toList]) [.add "c".toList, .remove "a".toList, .add "b".toList, .add "a".toList]) = ["b".toList, "c".toList, "a".toList] := by
+  decide +kernel
+
 /-! Non-vacuity: concrete instances of the hypotheses / both directions. -/
 
 example : Shorthand ":candidate".toList "urn:ietf:params:netconf:capability:candidate:1.0".toList :=
